@@ -1748,6 +1748,9 @@ func (t *fnTrans) bitop(in *ssa.BinOp, x, y string) {
 }
 
 func (t *fnTrans) ret(in *ssa.Return) {
+	if site := t.sites[in]; site != "" {
+		t.siteBefore(site, in, nil)
+	}
 	var rs []string
 	for _, r := range in.Results {
 		rs = append(rs, t.val(r))
